@@ -244,8 +244,20 @@ pub fn minimise(prop: &str, clause: &str, t: &Trace, scratch: &Scratch) -> (Trac
                 let (m, _) = minimise(prop, clause, &last, scratch);
                 return (m, true);
             }
-            // keep the history; shrink the last trace with the history replayed before every candidate
-            let hist: Vec<Trace> = ts[..ts.len() - 1].to_vec();
+            // keep the history, but only the elements a fresh process needs
+            let mut hist: Vec<Trace> = ts[..ts.len() - 1].to_vec();
+            let mut i = 0;
+            while i < hist.len() && hist.len() > 1 {
+                let mut cand = hist.clone();
+                cand.remove(i);
+                let mut full = cand.clone();
+                full.push(last.clone());
+                if crate::runner::reproduces_in_fresh_process(prop, clause, &Trace::Seq(full)) {
+                    hist = cand;
+                } else {
+                    i += 1;
+                }
+            }
             match &last {
                 Trace::Supply(s) => {
                     let (m, ch) = minimise_supply(prop, clause, s, scratch, &hist);
